@@ -20,8 +20,8 @@ impl Emb {
         let mut acc: u64 = 0;
         for k in 0..=max_tick {
             if kind == "huge" {
-                // ~95 simulated years per tick: beyond 2^64 ns after a few ticks
-                table.push(Duration::from_secs(k * 3_000_000_000));
+                // ~222 simulated years per tick: beyond 2^64 ns (584 years) from the third tick on
+                table.push(Duration::from_secs(k * 7_000_000_000));
                 continue;
             }
             let d = match kind {
